@@ -128,13 +128,17 @@ type Cluster struct {
 	arr         int
 	streamCount int
 	silentNodes map[int]bool
+	curArr      int
+	mgmtMode    string
+	mgmtHeld    int
+	mgmtRelease chan struct{}
 }
 
 func newCluster(w *World, nodes int) *Cluster {
 	return &Cluster{
 		w: w, nodes: nodes, buckets: map[string]*Bucket{}, connCount: map[string]int{},
 		collections: map[string]uint32{"_default._default": 0}, deadTags: map[string]bool{}, silentNodes: map[int]bool{},
-		casCounter: 1_700_000_000_000_000_000,
+		casCounter: 1_700_000_000_000_000_000, mgmtMode: "ok", mgmtRelease: make(chan struct{}),
 	}
 }
 
@@ -240,6 +244,7 @@ func (c *Cluster) dial(addr string) (io.ReadWriteCloser, string, error) {
 	}
 	c.conns = append(c.conns, cn)
 	c.w.mu.Unlock()
+	c.w.jl(&journal.Ev{K: journal.KConn, M: m, Vb: -1, S: "open", ID: cn.id, S2: role})
 	go c.serve(cn, sv)
 	return cl, "sim-client:" + cn.id, nil
 }
@@ -268,11 +273,16 @@ func (c *Cluster) serve(cn *Conn, sv *pipeEnd) {
 		req, _, err := rd.ReadPacket()
 		if err != nil {
 			c.w.mu.Lock()
+			was := cn.closed
 			cn.closed = true
 			for _, s := range cn.streams {
 				s.open = false
 			}
+			cn.queue = nil
 			c.w.mu.Unlock()
+			if !was {
+				c.w.jl(&journal.Ev{K: journal.KConn, M: cn.member, Vb: -1, S: "closed-by-client", ID: cn.id, S2: cn.role})
+			}
 			c.w.poke()
 			return
 		}
@@ -402,6 +412,7 @@ func (c *Cluster) respond(q *Req, v replyVariant) {
 	req := &q.pkt
 	res := &memd.Packet{Magic: memd.CmdMagicRes, Command: req.Command, Opaque: req.Opaque, Status: memd.StatusSuccess}
 	w := c.w
+	c.curArr = q.arr
 	ev := &journal.Ev{K: journal.KRsp, M: cn.member, Vb: int(req.Vbucket), S: req.Command.Name(), ID: q.id, Key: req.Key, I: int64(q.arr)}
 	if v.status != 0 {
 		res.Status = v.status
@@ -689,7 +700,7 @@ func (c *Cluster) subdocMutate(cn *Conn, req, res *memd.Packet) {
 	} else {
 		nd.body = []byte("{}")
 	}
-	ev := &journal.Ev{K: journal.KKVW, M: cn.member, Vb: -1, Key: req.Key, S2: cn.bucket.name, I: int64(req.Vbucket)}
+	ev := &journal.Ev{K: journal.KKVW, M: cn.member, Vb: -1, Key: req.Key, S2: cn.bucket.name, I: int64(req.Vbucket), U2: uint64(c.curArr)}
 	val := req.Value
 	for len(val) >= 8 {
 		op := memd.SubDocOpType(val[0])
@@ -1021,6 +1032,23 @@ func (c *Cluster) emitNext(s *DStream, pick func(n int) int) {
 		}
 		s.snapEnd = endSeq
 		s.inSnap = true
+		bad := s.badSnap
+		s.badSnap = ""
+		switch bad {
+		case "nomarker":
+			w.jl(&journal.Ev{K: journal.KEmit, M: s.conn.member, Vb: s.vb, S: "marker-omitted", ID: s.sid, B: true})
+			return
+		case "above": // the first item lies above the announced range
+			endSeq = vb.items[i].Seq - 1
+			if startSeq > endSeq {
+				startSeq = endSeq
+			}
+		case "below": // the first item lies below the announced range
+			startSeq = vb.items[i].Seq + 1
+			if endSeq < startSeq {
+				endSeq = startSeq
+			}
+		}
 		p := c.dcpPacket(s, memd.CmdDcpSnapshotMarker)
 		p.Extras = make([]byte, 20)
 		binary.BigEndian.PutUint64(p.Extras, startSeq)
@@ -1030,7 +1058,7 @@ func (c *Cluster) emitNext(s *DStream, pick func(n int) int) {
 			typ = 2 // disk
 		}
 		binary.BigEndian.PutUint32(p.Extras[16:], typ)
-		w.jl(&journal.Ev{K: journal.KEmit, M: s.conn.member, Vb: s.vb, S: "marker", U: startSeq, U2: endSeq, ID: s.sid})
+		w.jl(&journal.Ev{K: journal.KEmit, M: s.conn.member, Vb: s.vb, S: "marker", U: startSeq, U2: endSeq, ID: s.sid, B: bad != ""})
 		s.conn.write(p)
 		return
 	}
